@@ -103,6 +103,10 @@ class SrtContext:
         LOGGER.debug("Removing empty paragraph.")
         self._paragraphs.pop()
 
+      elif end is not None and self._paragraphs[-1].get_end().to_seconds() <= self._paragraphs[-1].get_begin().to_seconds():
+        LOGGER.debug("Removing paragraph whose duration is less than the time code resolution.")
+        self._paragraphs.pop()
+
     if isinstance(element, model.Span):
       is_bold = style.is_element_bold(element)
       is_italic = style.is_element_italic(element)
